@@ -15,6 +15,12 @@ pub mod object;
 pub struct RawUnprocessedJSONArray;
 impl RawUnprocessedJSONArray {
     pub fn split_into_vector_of_strings(_json_string: String) -> Result<Vec<String>, String> {
+        // the array is scanned one byte at a time, a byte of a multi-byte character is not a character on its own
+        if !_json_string.is_ascii() {
+            let message = "json array contains non-ascii characters, which are not supported";
+            return Err(message.to_string());
+        }
+
         let mut list : Vec<String> = vec![];
 
         // cursor
